@@ -25,6 +25,7 @@ type ProgOpts struct {
 	FailOps       bool // operations that raise runtime errors (1/0 via variables, bad index, call of non-callable)
 	NoTopReturn   bool // no `return` outside function literals (stream eval: fragments must not return early)
 	SingleKeyMaps bool // map literals with at most one key (their String() does not depend on Go's map order)
+	NoCycles   bool // no-op (kept for callers): every store into a container is scalar-only in every mode (scalarExpr)
 }
 
 // DefaultProgOpts is a mostly-valid mix of everything the VM model supports.
